@@ -46,10 +46,12 @@ def scan(fn, mutable=None):
             if isinstance(t, ast.Name):
                 assigns.setdefault(t.id, []).append(a.value)
     for a in walk_no_nested(fn):
-        if not (isinstance(a, ast.Assign) and isinstance(a.targets[0], ast.Subscript) and self_attr(a.targets[0].value)):
+        # `self.C[K] = V`, also as one target of a chained assignment (`x = self.C[K] = V`)
+        tg_ = next((t_ for t_ in a.targets if isinstance(t_, ast.Subscript) and self_attr(t_.value)), None) if isinstance(a, ast.Assign) else None
+        if tg_ is None:
             continue
-        cache = self_attr(a.targets[0].value)
-        key = a.targets[0].slice
+        cache = self_attr(tg_.value)
+        key = tg_.slice
         # memo shape only: the store happens on a miss - under a test that reads the same cache (`x = self.C.get(K)` ... `if x is
         # None:`, `if K not in self.C:`) or in a KeyError handler; any other keyed store is ordinary state, not a memo
         from .astx import dominating_conditions, flatten_conditions, ancestors
@@ -90,6 +92,28 @@ def scan(fn, mutable=None):
     return out
 
 
+def scan_missing(cls_node, mutable):
+    """A dict subclass that computes entries on demand (`__missing__(self, key)`) is a memo keyed by `key` alone: the value may
+    read nothing mutable but the key.  [(node, attr)] for reads of mutable attributes (of self, or of an object self refers to)."""
+    out = []
+    for fn in cls_node.body:
+        if not (isinstance(fn, ast.FunctionDef) and fn.name == "__missing__"):
+            continue
+        stores = any(isinstance(a, ast.Assign) and any(isinstance(t, ast.Subscript) and isinstance(t.value, ast.Name) and t.value.id == "self" for t in a.targets)
+                     for a in walk_no_nested(fn)) or any(isinstance(c, ast.Call) and isinstance(c.func, ast.Attribute) and c.func.attr in ("setdefault", "__setitem__")
+                                                         and isinstance(c.func.value, ast.Name) and c.func.value.id == "self" for c in walk_no_nested(fn))
+        if not stores:
+            continue
+        for x in walk_no_nested(fn):
+            if isinstance(x, ast.Attribute) and isinstance(x.ctx, ast.Load) and x.attr in mutable:
+                root = x.value
+                while isinstance(root, ast.Attribute):
+                    root = root.value
+                if isinstance(root, ast.Name) and root.id == "self" and not (isinstance(x.value, ast.Name) and False):
+                    out.append((x, x.attr))
+    return out
+
+
 def e13(ctx):
     m = ctx.model
     ctx.rule("E13", "memo keys are complete: where a method stores `self.<cache>[K] = V`, every attribute of self that V is computed "
@@ -121,6 +145,14 @@ def e13(ctx):
                               f"text printed later comes out with the earlier document's value")
             else:
                 ctx.proved("E13", f.file, f.short, node, f"self.{cache}[...] key", "the key covers every attribute the value is computed from")
+    for cq, (mod_, cnode) in sorted(m.classes.items()):
+        for x, attr in scan_missing(cnode, mutable):
+            n += 1
+            bad += 1
+            ctx.violation("E13", m.files[mod_], f"{cq.rsplit('.', 1)[-1]}.__missing__", x, f"{cq.rsplit('.', 1)[-1]} entries",
+                          f"`{ast.unparse(x)[:50]}` is read when an entry of {cq.rsplit('.', 1)[-1]} is computed and stored under its key alone; "
+                          f"`{attr}` is assigned elsewhere in the package (formatters set a printer's indent_str for the duration of a document), "
+                          f"so entries computed before the change are served after it")
     if not bad:
         ctx.proved("E13", "graphtage/", "-", None, "memo keys complete", f"{scanned} methods scanned, {n} keyed stores on self, none under-keyed "
                                                                         f"(embedded positive and negative examples judged as expected)")
